@@ -567,7 +567,6 @@ struct SubState {
 }
 
 async fn run_sync(ctx: &Arc<RunCtx>, prune_any: bool) {
-    verif::warm_statics();
     let thorough = ctx.tier == Tier::Thorough;
     // ---- configuration (swarm style)
     let block_time_ms = *ctx.pick("cfg.block_time", &[6000u64, 3000, 12000, 30000]);
